@@ -130,6 +130,61 @@ theorem feed_shlexQuote (st : LexSt) (s : List Char) (hm : st.mode = .unq) :
         simp [feed, step, LexSt.quoteMark, LexSt.pushLit, hc]
         cases st; simp_all
 
+/-- the first character of `shlex.quote(s)` is a quote or a safe character -/
+theorem shlexQuote_head (s : List Char) : ∃ c r, shlexQuote s = c :: r ∧ (c = '\'' ∨ isSafe c = true) := by
+  unfold shlexQuote
+  split
+  · exact ⟨_, _, rfl, Or.inl rfl⟩
+  · split
+    · rename_i hne hs
+      cases s with
+      | nil => simp at hne
+      | cons c r =>
+        simp only [List.all_cons, Bool.and_eq_true] at hs
+        exact ⟨c, r, rfl, Or.inr hs.1⟩
+    · exact ⟨_, _, rfl, Or.inl rfl⟩
+
+theorem not_op2_of_quote_or_safe (a c : Char) (h : c = '\'' ∨ isSafe c = true) : isOp2 a c = false := by
+  have k : ∀ m : Char, (m = '\'' ∨ isSafe m = true) = False → c ≠ m := by
+    intro m hm e; subst e; rw [hm] at h; exact h
+  have h1 : c ≠ '&' := k _ (by decide)
+  have h2 : c ≠ '|' := k _ (by decide)
+  have h3 : c ≠ ';' := k _ (by decide)
+  have h4 : c ≠ '>' := k _ (by decide)
+  have h5 : c ≠ '<' := k _ (by decide)
+  simp [isOp2, *]
+
+/-- a text that starts with a quote or a safe character completes a pending operator first -/
+theorem feed_closeOp (st : LexSt) (c : Char) (r : List Char) (h : c = '\'' ∨ isSafe c = true) :
+    feed st (c :: r) = feed st.closeOp (c :: r) := by
+  unfold LexSt.closeOp
+  split
+  · rename_i a hm
+    rw [feed_cons, feed_cons]
+    congr 1
+    simp [step, hm, not_op2_of_quote_or_safe a c h]
+  · rfl
+
+theorem closeOp_mode (st : LexSt) (h : st.mode = .unq ∨ ∃ a, st.mode = .opc a) : st.closeOp.mode = .unq := by
+  unfold LexSt.closeOp
+  rcases h with h | ⟨a, h⟩ <;> simp [h]
+
+/-- `shlex.quote(s)` read in unquoted mode or right after an operator character: `s` is inserted verbatim -/
+theorem feed_shlexQuote_insert (st : LexSt) (s : List Char) (hm : st.mode = .unq ∨ ∃ a, st.mode = .opc a) :
+    feed st (shlexQuote s) = st.insert s := by
+  obtain ⟨c, r, e, hc⟩ := shlexQuote_head s
+  rw [e, feed_closeOp st c r hc, ← e, feed_shlexQuote _ _ (closeOp_mode st hm)]
+  rfl
+
+theorem feed_safe_insert (st : LexSt) (s : List Char) (hne : s ≠ []) (h : s.all isSafe = true)
+    (hm : st.mode = .unq ∨ ∃ a, st.mode = .opc a) : feed st s = st.insert s := by
+  cases s with
+  | nil => exact absurd rfl hne
+  | cons c r =>
+    have hc : isSafe c = true := by simp only [List.all_cons, Bool.and_eq_true] at h; exact h.1
+    rw [feed_closeOp st c r (Or.inr hc), feed_safe _ _ hne h (closeOp_mode st hm)]
+    rfl
+
 /-- `shlex.quote(s)` alone is the single word `s`, nothing interpreted -/
 theorem lexLine_shlexQuote (s : List Char) : lexLine (shlexQuote s) = .ok [.word { cs := s }] := by
   unfold lexLine
@@ -238,14 +293,33 @@ theorem shape_feed (st : LexSt) (cs : List Char) : shape (feed st cs) = shapeFee
 theorem shape_pushLit (st : LexSt) (s : List Char) : shape (st.pushLit s) = ⟨st.mode, false⟩ := by
   simp [shape, LexSt.pushLit]
 
+/-- mode in which an argument may be inserted: unquoted, or right after an operator character -/
+def Mode.wordStart : Mode → Bool
+  | .unq => true
+  | .opc _ => true
+  | _ => false
+
+def Mode.closeOp : Mode → Mode
+  | .opc _ => .unq
+  | m => m
+
+theorem wordStart_iff (m : Mode) : m.wordStart = true ↔ (m = .unq ∨ ∃ a, m = .opc a) := by
+  cases m <;> simp [Mode.wordStart]
+
+theorem shape_insert (st : LexSt) (s : List Char) : shape (st.insert s) = ⟨st.mode.closeOp, false⟩ := by
+  unfold LexSt.insert
+  rw [shape_pushLit]
+  unfold LexSt.closeOp Mode.closeOp
+  cases hm : st.mode <;> simp [hm]
+
 /-- every `shlex.quote`d argument of the template is met in unquoted mode (decidable on the template alone) -/
 def placed : Shape → Template → Bool
   | _, [] => true
   | s, .lit l :: t => placed (shapeFeed s l) t
-  | s, .shq _ :: t => s.mode == .unq && placed ⟨s.mode, false⟩ t
-  | s, .raw _ :: t => placed ⟨s.mode, false⟩ t
-  | s, .dq _ :: t => placed ⟨s.mode, false⟩ t
-  | s, .safe _ :: t => s.mode == .unq && placed ⟨s.mode, false⟩ t
+  | s, .shq _ :: t => s.mode.wordStart && placed ⟨s.mode.closeOp, false⟩ t
+  | s, .raw _ :: t => placed ⟨s.mode.closeOp, false⟩ t
+  | s, .dq _ :: t => placed ⟨s.mode.closeOp, false⟩ t
+  | s, .safe _ :: t => s.mode.wordStart && placed ⟨s.mode.closeOp, false⟩ t
 
 /-- **Templates whose arguments all go through `shlex.quote` are verbatim**: for every argument list the
     rendered text is read by the shell exactly as the template with the argument values inserted verbatim. -/
@@ -267,19 +341,19 @@ theorem feed_render_quoted (t : Template) : ∀ (st : LexSt) (args : List (List 
       simp only [renderPiece, specFeed]
       exact ih _ args hq' (by simpa [placed, shape_feed] using hp) hs'
     | shq i =>
-      simp only [placed, Bool.and_eq_true, beq_iff_eq] at hp
-      have hm : st.mode = .unq := hp.1
+      simp only [placed, Bool.and_eq_true] at hp
+      have hm := (wordStart_iff _).mp hp.1
       simp only [renderPiece, specFeed]
-      rw [feed_shlexQuote st _ hm]
-      exact ih _ args hq' (by rw [shape_pushLit]; exact hp.2) hs'
+      rw [feed_shlexQuote_insert st _ hm]
+      exact ih _ args hq' (by rw [shape_insert]; exact hp.2) hs'
     | safe i =>
-      simp only [placed, Bool.and_eq_true, beq_iff_eq] at hp
-      have hm : st.mode = .unq := hp.1
+      simp only [placed, Bool.and_eq_true] at hp
+      have hm := (wordStart_iff _).mp hp.1
       simp only [renderPiece, specFeed]
       have h1 := hs.1
       simp only [Bool.and_eq_true, Bool.not_eq_true', List.isEmpty_eq_false_iff] at h1
-      rw [feed_safe st _ h1.1 h1.2 hm]
-      exact ih _ args hq' (by rw [shape_pushLit]; exact hp.2) hs'
+      rw [feed_safe_insert st _ h1.1 h1.2 hm]
+      exact ih _ args hq' (by rw [shape_insert]; exact hp.2) hs'
     | raw i => simp [Piece.isShQuoted] at hq
     | dq i => simp [Piece.isShQuoted] at hq
 
